@@ -133,3 +133,31 @@ func VerifDepackTwin() {
 	dp.Depacketize(&Packet{Channel: ChannelVideo, Data: []byte{24, 0, 9, b[0], b[1]}})
 	symapi.Assert(len(w.frames) == 1, "twin-truncated-unit-emitted")
 }
+
+// VerifWirePacketGarbage (C07): a whole RTP packet as it arrives from the publisher - header
+// bits (padding, extension, CSRC count, marker), sequence, timestamp and payload all
+// symbolic - goes through the same Unmarshal as ReadPacket and then into the depacketizer;
+// nothing panics and a following good unit is still converted.
+func VerifWirePacketGarbage() {
+	N := symapi.Param("NW", 4)
+	n := symapi.IntRange("n", 0, N)
+	data := symapi.Bytes("w", 12+n)
+	symapi.Assume(data[0]>>6 == 2) // RTP version 2; P, X and CC bits are free
+	p := &Packet{Channel: ChannelVideo, Data: data}
+	if symapi.Bool("audio") {
+		p.Channel = ChannelAudio
+	}
+	if err := p.Header.Unmarshal(p.Data); err != nil {
+		symapi.Reach("rejected") // ReadPacket returns the error: the packet never enters the stream
+		return
+	}
+	_ = p.Payload() // what the caches and depacketizers look at
+	w := &verifRecWriter{}
+	if p.Channel == ChannelVideo {
+		verifNewH264(w).Depacketize(p)
+		verifNewH265(w).Depacketize(p)
+	} else {
+		verifNewAac(w).Depacketize(p)
+	}
+	symapi.Reach("end")
+}
